@@ -367,6 +367,13 @@ def run_check(mod, prop, tier, seed, replay_path=None):
             ctx.discharged = len(good)
             for t, why in bad.items():
                 ctx.broken.append(f"theorem {t}: {why}")
+            if tier == "thorough":
+                # independent re-check of the compiled property module by the toolchain's leanchecker
+                p = subprocess.run(["lake", "env", "leanchecker", target], cwd=LEAN, stdout=subprocess.PIPE,
+                                   stderr=subprocess.STDOUT, text=True, timeout=3000)
+                ctx.extra["leanchecker"] = {"module": target, "exit": p.returncode, "tail": p.stdout[-300:]}
+                if p.returncode != 0:
+                    ctx.broken.append(f"leanchecker rejected {target}: {p.stdout[-400:]}")
         # 4. correspondence
         if os.path.exists(DRIVER):
             try:
